@@ -332,3 +332,47 @@ def run(ctx, R):
          "extend_indexed_choice inserts at the FRONT of a DynamicIndexedChoice sequence (asserta/1 on a key that already has clauses), but a call that is iterating the "
          "sequence remembers its place as an index from the front: after asserta the saved index points one clause back. q(a,1). q(a,2). "
          "?- findall(X, (q(a,X), (X==1, \\+ q(a,0) -> asserta(q(a,0)) ; true)), L). gives [1,1,2]; without the \\+ guard the call never terminates", F.where(ex[0]))
+
+    # ---- R5: locating the first clause of an indexed block (incremental compilation, src/machine/compile.rs) --------
+    # (a) `clause_start - 2` is the block's leading choice instruction only for the clause the block was created with; a
+    # dynamic predicate's first clause can be retracted while its code stays. Uses of that arithmetic are a closed table.
+    BLOCK_START_ARITH = {
+        "compile::merge_indexed_subsequences": 1,
+        "compile::prepend_compiled_clause": 3,
+        "Loader<'a, LS>::retract_clause": 5,
+    }
+    seen = {}
+    for p, it in sorted(F.items.items()):
+        if it["file"] != "src/machine/compile.rs" or it["kind"] not in ("Fn", "AssocFn"):
+            continue
+        try:
+            ph = F.hir(p)
+        except AnchorLost:
+            continue
+        c = 0
+        for x in walk(ph["body"]):
+            if x["k"] == "Binary" and x["op"] == "Sub" and x["b"]["k"] == "Lit" and str(x["b"].get("lit", {}).get("int")) == "2" \
+                    and any(y["k"] == "Field" and y["name"] == "clause_start" for y in walk(x["a"])) or \
+               x["k"] == "Binary" and x["op"] == "Sub" and x["b"]["k"] == "Lit" and str(x["b"].get("lit", {}).get("int")) == "2" \
+                    and x["a"]["k"] == "Path" and "clause_start" in (res_name(x["a"]) or ""):
+                c += 1
+        if c:
+            seen[short(p)] = c
+    R.notes.append("clause_start - 2 sites: %s" % seen)
+    for fn_, c in sorted(seen.items()):
+        R.ob("C09:block-start-by-arithmetic:%s" % fn_, c <= BLOCK_START_ARITH.get(fn_, 0),
+             "%s computes a block's leading choice instruction as `clause_start - 2` at %d site(s) (table allows %d): that location is right only for the clause the block "
+             "was created with; after a retract of that clause of a dynamic predicate it falls into dead code (assertz(q(a,1)), assertz(q(b,2)), retract(q(a,1)), assertz(q(_,9)) "
+             "hit unreachable code). Take the location from the block's indexing instruction (switch_on_term_loc() - 1)" % (fn_, c, BLOCK_START_ARITH.get(fn_, 0)), "src/machine/compile.rs")
+    # (b) the search for the block's first clause among the asserta'd clauses validates its hit
+    lb = [p for p in F.items if p.endswith("compile::lower_bound_of_target_clause")]
+    if len(lb) != 1:
+        raise AnchorLost("compile::lower_bound_of_target_clause: %s" % lb)
+    lh = F.hir(lb[0])
+    ifs = [n for n in walk(lh["body"]) if n["k"] == "If" and any(y["k"] == "Field" and y["name"] == "clause_assert_margin" for y in walk(n["cond"]))]
+    if not ifs:
+        raise AnchorLost("lower_bound_of_target_clause: test against clause_assert_margin")
+    R.ob("C09:lower-bound:asserta-hit-belongs-to-the-block", any(any(y["k"] == "MethodCall" and y["name"] == "switch_on_term_loc" for y in walk(n["cond"])) for n in ifs),
+         "lower_bound_of_target_clause accepts any search result below the asserta margin as the first clause of the block; when the block lies among the assertz'd clauses "
+         "the search stops at 0 and the new clause is merged into the predicate's first block: asserta(q(_,1)), asserta(q(f(_),2)), assertz(q(c,3)), assertz(q(d,4)) "
+         "enumerates [2,4,1,3]", F.where(lb[0]))
